@@ -2,7 +2,7 @@
    Go side: path.Join(path.Dir(base), path.Clean(ref)) as normalizeURI computes it (Base/Url.v);
    RFC side: merge + remove_dot_segments written from the RFC text (Base/Rfc3986.v). *)
 From Coq Require Import List String Ascii Bool Arith.
-From Spec Require Import Base.Json Base.Url Base.Rfc3986 Base.UrlFacts.
+From Spec Require Import Base.Json Base.Url Base.Rfc3986 Base.UrlFacts Base.PathText.
 Import ListNotations.
 Local Open Scope char_scope.
 
@@ -24,6 +24,34 @@ Theorem C12_strings_bounded : forall bs rs f,
   link_case bs rs f = true.
 Proof. exact link_bounded. Qed.
 Print Assumptions C12_strings_bounded.
+
+(* ---- the same on TEXTS, unbounded (Base/PathText.v) ----
+   [flat segs] is the text "/s1/s2/.../sn"; [okseg]: a segment is non-empty and holds no "/" (anything else, escapes included). *)
+
+(* RFC 3986 5.2.4 as written in the RFC (input buffer / output buffer over characters) and Go's path.Clean (over characters)
+   return the same text for every absolute path whose last segment is a proper name - any number of segments, "." and ".."
+   anywhere before the last, climbing above the root included *)
+Theorem C12_dot_removal_on_text : forall segs, Forall okseg segs -> segs <> [] -> proper (last segs []) ->
+  remove_dot_segments (flat segs) = clean (flat segs).
+Proof. exact rfc_dot_removal_is_clean_on_text. Qed.
+Print Assumptions C12_dot_removal_on_text.
+
+(* the path normalizeURI computes for a relative reference - path.Join(path.Dir(base), ref) - is the RFC's merge (5.2.3)
+   followed by remove_dot_segments (5.2.4): for every canonical base path "/b1/.../bn/file" and every relative reference
+   "r1/.../rm" with non-empty segments ending in a proper name *)
+Theorem C12_join_is_merge_on_text : forall bs file rs,
+  Forall okseg bs -> Forall proper bs -> okseg file ->
+  Forall okseg rs -> rs <> [] -> proper (last rs []) ->
+  join2 (dir (flat (bs ++ [file]))) (join_with "/" rs) = remove_dot_segments (merge true (flat (bs ++ [file])) (join_with "/" rs)).
+Proof. exact go_join_is_rfc_merge. Qed.
+Print Assumptions C12_join_is_merge_on_text.
+
+Example C12_text_example :
+  let bs := [s2l "r"; s2l "a%20b"] in let file := s2l "root.json" in
+  let rs := [dotdot; dotdot; dotdot; s2l "x"; dot; s2l "other.json"] in
+  Forall okseg bs /\ Forall proper bs /\ okseg file /\ Forall okseg rs /\ proper (last rs [])
+  /\ join2 (dir (flat (bs ++ [file]))) (join_with "/" rs) = s2l "/x/other.json".
+Proof. exact go_join_example. Qed.
 
 (* percent-escapes: printing then reading a path or fragment gives it back *)
 Theorem C12_escape_roundtrip : forall m s, unesc (escape m s) = Some s.
